@@ -64,6 +64,8 @@ func c11Run(line string) string {
 			eq += " canon=" + vhHex(ref) + " -> " + c11Decode(t, append(ref, suffix...))
 		}
 		return vhHex(enc) + " | " + out + eq
+	case "xpkg":
+		return c11XpkgRun(f)
 	case "menc", "mdec", "mrt":
 		return c11MapRun(f)
 	case "order": // order <type>: the field order fieldScaleIndices computes for a struct type
@@ -95,6 +97,9 @@ func c11Gen(r *vhRng) string {
 				return "order " + t.String()
 			}
 		}
+	}
+	if r.Chance(1, 30) { // same-named structs of two packages named `types`
+		return c11XpkgGen(r)
 	}
 	if r.Chance(1, 12) { // a Go map: encoding (menc) or round trip (mrt)
 		return c11MapGen(r, r.Pick(0, 1, 1))
